@@ -40,7 +40,8 @@ ASSUMPTIONS = [
     "numba, numpy, moptipy are trusted",
     "seeded search: a clean batch is evidence, not proof",
 ]
-FAULT_KINDS = ["algorithm_object_reused", "warm_start:full", "warm_start:wrapper", "via:for_fes",
+FAULT_KINDS = ["same_name_other_instance", "fea_do_log_h",
+               "create_returns_garbage", "algorithm_object_reused", "warm_start:full", "warm_start:wrapper", "via:for_fes",
                "via:from_starting_point",
                "cancel:before_first_move", "cancel:mid_run", "draw:i0",
                "draw:jmax", "draw:equal", "draw:full_reversal",
@@ -172,7 +173,24 @@ def gen_draws(rng: random.Random, n: int, n_moves: int) -> tuple[list, dict]:
     return draws, kinds
 
 
-def generate(rng: random.Random, batch: dict) -> dict:
+def generate(rng: random.Random, batch: dict, depth: int = 0) -> dict:
+    doc = _generate(rng, batch)
+    if depth == 0 and "matrix" in doc["inst"] and not batch.get("long") \
+            and rng.random() < 0.2:
+        twin = _generate(rng, batch)
+        if "matrix" in twin["inst"]:
+            twin["algo"] = doc["algo"]
+            if doc["algo"] == "fea":
+                # keep the twin's table small enough for the FEA
+                lb, ub = orc.bounds(twin["inst"]["matrix"])
+                if ub > 3_000_000:
+                    twin = None
+            if twin is not None:
+                doc["twin"] = twin
+    return doc
+
+
+def _generate(rng: random.Random, batch: dict) -> dict:
     algo = rng.choice(["ea", "fea"])
     mode = batch["mode"]
     if rng.random() < 0.05:
@@ -188,6 +206,10 @@ def generate(rng: random.Random, batch: dict) -> dict:
             n = max(n, 4)
         inst = {"matrix": gen_matrix(rng, n, algo == "fea")}
     doc = {"algo": algo, "inst": inst, "mode": mode}
+    if algo == "fea" and rng.random() < 0.3:
+        doc["do_log_h"] = True
+    if mode == "stub" and rng.random() < 0.2:
+        doc["create_garbage"] = rng.getrandbits(30)
     if mode == "stub":
         perm = list(range(n))
         rng.shuffle(perm)
@@ -289,7 +311,7 @@ class _Stop(Exception):
     pass
 
 
-def _build(doc):
+def _build(doc, name: str = "sim"):
     import numpy as np
     from moptipyapps.tsp.instance import Instance
     inst_doc = doc["inst"]
@@ -298,7 +320,7 @@ def _build(doc):
         matrix = [[int(v) for v in row] for row in np.asarray(inst)]
     else:
         matrix = [[int(v) for v in row] for row in inst_doc["matrix"]]
-        inst = Instance("sim", 0, np.array(matrix, dtype=np.int64))
+        inst = Instance(name, 0, np.array(matrix, dtype=np.int64))
     return inst, matrix
 
 
@@ -320,10 +342,35 @@ class _GuardAlloc:
 
 
 def execute(doc: dict) -> dict:
-    """One scenario = one or more runs on ONE algorithm object (history)."""
+    """One scenario = one or more runs on ONE algorithm object (history),
+    optionally followed by the same on a twin: a different instance that
+    carries the SAME name (state keyed by the name must not leak)."""
+    from simkit.engines import packgen
+    name = packgen.scenario_name(doc, "t")
+    total = _execute_runs(doc, name)
+    twin = doc.get("twin")
+    if twin is not None and total["violation"] is None:
+        r2 = _execute_runs(twin, name)
+        total["events"].append(["twin"])
+        total["events"].extend(r2["events"])
+        for key in ("faults", "probes"):
+            for k, v in r2[key].items():
+                total[key][k] = total[key].get(k, 0) + v
+        total["states"].extend(r2["states"])
+        total["ops"] += r2["ops"]
+        total["sim_time"] += r2["sim_time"]
+        total["nontrivial"] = total["nontrivial"] or r2["nontrivial"]
+        core.bump(total["faults"], "same_name_other_instance")
+        if r2["violation"] is not None:
+            total["violation"] = r2["violation"]
+            total["violation"]["in_twin"] = True
+    return total
+
+
+def _execute_runs(doc: dict, name: str) -> dict:
     runs = [doc] + [{**{k: v for k, v in doc.items() if k != "more_runs"},
                      **r} for r in doc.get("more_runs", [])]
-    shared: dict = {}
+    shared: dict = {"name": name}
     total = None
     for ri, rdoc in enumerate(runs):
         res = _execute_single(rdoc, shared)
@@ -358,7 +405,8 @@ def _execute_single(doc: dict, shared: dict) -> dict:
 
     res = core.new_result()
     if "inst" not in shared:
-        shared["inst"], shared["matrix"] = _build(doc)
+        shared["inst"], shared["matrix"] = _build(
+            doc, shared.get("name", "sim"))
     inst, matrix = shared["inst"], shared["matrix"]
     n = len(matrix)
     algo_name = doc["algo"]
@@ -380,7 +428,12 @@ def _execute_single(doc: dict, shared: dict) -> dict:
     if is_fea and ub > 3_000_000:
         raise AssertionError("FEA scenario with huge upper bound: harness bug")
     if "algo" not in shared:
-        shared["algo"] = (TSPFEA1p1revn if is_fea else TSPEA1p1revn)(inst)
+        if is_fea:
+            shared["algo"] = TSPFEA1p1revn(inst, bool(doc.get("do_log_h")))
+            if doc.get("do_log_h"):
+                core.bump(res["faults"], "fea_do_log_h")
+        else:
+            shared["algo"] = TSPEA1p1revn(inst)
     algo = shared["algo"]
     space = Permutations.standard(n)
     maxd = max(max(r) for r in matrix)
@@ -515,7 +568,10 @@ def _execute_single(doc: dict, shared: dict) -> dict:
                 return np.int64(int(low) + v)
 
             def shuffle(self, x):
-                x[:] = start
+                # a scripted permutation of whatever x holds (like a real
+                # shuffle: it cannot repair garbage contents)
+                cur = np.array(x).copy()
+                x[:] = cur[np.array(start, dtype=np.int64)]
 
             def permutation(self, x):
                 return np.array(start, dtype=np.int64) if isinstance(
@@ -588,7 +644,23 @@ def _execute_single(doc: dict, shared: dict) -> dict:
                 state["polls"] = 10 ** 12
 
             def create(self):
-                return space.create()
+                # the contents of a new point are undefined by contract:
+                # hand out garbage of the right type when asked to
+                xnew = space.create()
+                g = doc.get("create_garbage")
+                if g is not None:
+                    rg = random.Random(int(g))
+                    kind = rg.choice(["zeros", "random", "reversed", "last"])
+                    if kind == "zeros":
+                        xnew[:] = 0
+                    elif kind == "random":
+                        xnew[:] = [rg.randrange(n) for _ in range(n)]
+                    elif kind == "reversed":
+                        xnew[:] = list(range(n - 1, -1, -1))
+                    else:
+                        xnew[:] = n - 1
+                    core.bump(res["faults"], "create_returns_garbage")
+                return xnew
 
             def evaluate(self, x):
                 xs = [int(v) for v in x]
@@ -656,9 +728,21 @@ def _execute_single(doc: dict, shared: dict) -> dict:
         from moptipy.api.execution import Execution
         from moptipyapps.tsp.tour_length import TourLength
 
-        class Proxy:
+        from moptipy.api.process import Process as _MoptipyProcess2
+
+        class Proxy(_MoptipyProcess2):
+            """A real moptipy Process that forwards everything and watches
+            evaluate/register (same idiom as moptipy's own wrappers)."""
+
             def __init__(self, p):
+                super().__init__()
                 self._p = p
+                for nm in dir(p):
+                    if nm.startswith("_") or nm in ("evaluate", "register"):
+                        continue
+                    attr = getattr(p, nm)
+                    if callable(attr):
+                        setattr(self, nm, attr)
 
             def __getattr__(self, name):
                 return getattr(self._p, name)
@@ -778,6 +862,14 @@ def _norm_perm(perm: list, n: int) -> list:
 # ------------------------------------------------------------------ shrinking
 
 def reductions(doc: dict):
+    if doc.get("twin") is not None:
+        yield {k: v for k, v in doc.items() if k != "twin"}
+        for cand in reductions(doc["twin"]):
+            yield {**doc, "twin": cand}
+    if doc.get("do_log_h"):
+        yield {k: v for k, v in doc.items() if k != "do_log_h"}
+    if doc.get("create_garbage") is not None:
+        yield {k: v for k, v in doc.items() if k != "create_garbage"}
     if doc.get("more_runs"):
         for cand in core.list_deletions(doc["more_runs"], 0):
             yield {**doc, "more_runs": cand}
